@@ -23,6 +23,8 @@ var c15Progs = []struct {
 	{"org_prog", "\tORG 0x7c00\n{A}:\n\tMOV SI,{B}\n\tJMP {C}\n{B}:\n\tDB \"x\",0\n{C}:\n\tJNZ {A}\n\tDW {B}\n", 3, false},
 	{"mem_label", "\tMOV AX,[{A}]\n\tADD WORD [{B}],1\n\tCMP BYTE [{C}],0\n\tMOV [{A}],BX\n\tSUB CX,[{B}]\n\tNOT WORD [{C}]\n\tHLT\n{A}:\n\tDW 0\n{B}:\n\tDW 0\n{C}:\n\tDB 0\n", 3, false},
 	{"char_literal", "{A}:\n\tMOV AL,'a'\n\tCMP AL,'z'\n\tMOV BX,{A}\n\tDB 'A','Z'\n{B}:\n\tMOV CX,'a'+1\n\tDW {B}\n", 2, false},
+	// strings and character literals whose text is a name of the pool: a label of that name must not capture them
+	{"strings_named_like_symbols", "{A}:\n\tDB 1\n{B}:\n\tDB \"a\",\"aa\",\"A\",\"kbd_wait\",0\n\tDB \"VALUE\",\"each\",\"ah\",\"dead\",\"INIT\",\"Z9\",\"a0h\"\n\tDB \"prefix89\",\"prefix89x\",\"AXIS\",\"FLAGS\",\"EQUAL\",\"a_\",\"aA\",\"Kick\"\n\tDB 'a','A'\n\tDW {A},{B}\n\tMOV SI,{B}\n\tJMP {A}\n", 2, false},
 	{"wcoff", "[FORMAT \"WCOFF\"]\n[INSTRSET \"i486p\"]\n[BITS 32]\n[FILE \"f.nas\"]\n\tGLOBAL {A}, {B}\n[SECTION .text]\n{A}:\n\tRET\n{B}:\n\tMOV EAX,1\n\tRET\n{C}:\n\tHLT\n", 3, true},
 	{"wcoff_one_by_one", "[FORMAT \"WCOFF\"]\n[BITS 32]\n\tGLOBAL {C}\n\tGLOBAL {A}\n[SECTION .text]\n{A}:\n\tNOP\n{B}:\n\tRET\n{C}:\n\tMOV ECX,[ESP+4]\n\tRET\n", 3, true},
 }
@@ -50,7 +52,7 @@ func c15Scenario(tier string) *core.Scenario {
 	ref := [3]string{"first_sym", "second_sym", "third_sym"}
 	return &core.Scenario{
 		Name: "renamings", Bound: -1,
-		Rule:   "8 programs (labels and EQUs in every operand position, flat and WCOFF with GLOBAL) x every injective assignment of their symbols into an adversarial name pool (one-letter names, names differing only in case, names that are prefixes/suffixes of each other, 8/9-byte and 40-byte names): flat output must be byte-identical to the reference naming; COFF must be identical except symbol-name fields and string table; non-trivial = assembled and differs from the reference naming",
+		Rule:   "11 programs (labels and EQUs in every operand position, next to strings and character literals that spell names of the pool, flat and WCOFF with GLOBAL) x every injective assignment of their symbols into an adversarial name pool (one-letter names, names differing only in case, names that are prefixes/suffixes of each other, 8/9-byte and 40-byte names): flat output must be byte-identical to the reference naming; COFF must be identical except symbol-name fields and string table; non-trivial = assembled and differs from the reference naming",
 		Bounds: map[string]any{"programs": len(c15Progs), "name_pool": names},
 		Build: func(c *core.Chooser) *core.Case {
 			p := c15Progs[c.Pick("prog", len(c15Progs))]
@@ -139,10 +141,56 @@ func c15Scenario(tier string) *core.Scenario {
 	}
 }
 
+// c15Twins: the grammar also admits '.' and '$' inside names. A jump to such a name is refused (the label
+// placeholder of pass 2 cannot carry it), but in data and immediate positions they work - and must stay distinct from
+// the name that has '_' in the same place, which is used as a jump target here.
+func c15Twins() *core.Scenario {
+	pairs := [][2]string{{"disk_err", "disk.err"}, {"a_b", "a.b"}, {"x_1", "x$1"}, {"_y", ".y"}, {"_y", "$y"}, {"p_q_r", "p.q_r"}, {"p_q_r", "p_q.r"}, {"w_", "w."}, {"k_9", "k.9"}}
+	tmpls := []string{
+		"\tORG 0x7c00\n\tJC {A}\n\tMOV SI,{B}\n\tHLT\n{A}:\n\tJMP {A}\n{B}:\n\tDB \"msg\",0\n\tDW {B},{A}\n\tCALL {A}\n",
+		"{B}:\n\tDB 1,2,3,4,5,6,7,8,9,10,11,12,13,14,15,16,17,18,19,20\n{A}:\n\tNOP\n\tJNZ {A}\n\tMOV AX,[{B}]\n\tMOV BX,{B}\n\tJMP {A}\n",
+		"[BITS 32]\n\tCALL {A}\n\tMOV EAX,{B}\n\tRET\n{B}:\n\tDD {B}\n\tRESB 200\n{A}:\n\tJE {A}\n\tDD {A},{B}\n\tRET\n",
+	}
+	return &core.Scenario{
+		Name: "punctuation_twins", Bound: -1,
+		Rule:   "9 pairs of names that differ only in '_' versus '.' or '$' at one place x 3 programs in which the '_' name is a jump/call target and the other one a data label used in immediates, data and memory operands (positions where such names assemble): flat output must be byte-identical to the neutral naming",
+		Bounds: map[string]any{"pairs": pairs, "programs": len(tmpls)},
+		Build: func(c *core.Chooser) *core.Case {
+			pr := pairs[c.Pick("pair", len(pairs))]
+			t := tmpls[c.Pick("prog", len(tmpls))]
+			fill := func(a, b string) string { return strings.ReplaceAll(strings.ReplaceAll(t, "{A}", a), "{B}", b) }
+			return &core.Case{
+				Key:       fmt.Sprintf("twins|%s/%s|%d", pr[0], pr[1], c.Cost()),
+				Feat:      feat("prog", "twins", "a", pr[0], "b", pr[1]),
+				FreshRefs: true, Srcs: []string{fill(pr[0], pr[1]), fill("first_sym", "second_sym")},
+				Judge: func(rs []*core.Result) core.Verdict {
+					v := core.Verdict{}
+					r, rr := rs[0], rs[1]
+					if core.HardFailure(rr) || core.ReportsError(rr, nil) {
+						v.Outcome = "reference_fails"
+						v.Fails = []core.Fail{{Facet: "harness", Dev: "reference_naming_rejected", Detail: errSummary(rr)}}
+						return v
+					}
+					if core.HardFailure(r) || core.ReportsError(r, rr) {
+						v.Outcome = "renamed_diagnosed" // names with '.'/'$' are outside the property's quantifier: a refusal is not judged
+						return v
+					}
+					v.Outcome = "assembled"
+					v.Nontrivial = true
+					if !bytes.Equal(r.Out, rr.Out) {
+						v.Fails = []core.Fail{{Facet: "rename", Dev: "flat_bytes_differ", Detail: fmt.Sprintf("renamed %x reference %x", r.Out, rr.Out)}}
+					}
+					return v
+				},
+			}
+		},
+	}
+}
+
 func init() {
 	register(&Property{
 		ID:        "C15",
-		Scenarios: func(tier string) []*core.Scenario { return []*core.Scenario{c15Scenario(tier)} },
+		Scenarios: func(tier string) []*core.Scenario { return []*core.Scenario{c15Scenario(tier), c15Twins()} },
 		Assumptions: []string{
 			"differential oracle: the same program with the neutral names first_sym/second_sym/third_sym is the reference",
 			"the name pool avoids reserved words, registers and opcode prefixes, as the property's quantifier requires",
